@@ -588,9 +588,12 @@ fn step(cx: &Cx, s: &Setup, kind: Kind, memo: &Memo, c: &Counters, hist: &[u16])
             // an earlier transition already failed (and was reported when it was the last one)
             return None;
         }
-        ok = false;
         let e = &s.alpha[hist[*k] as usize];
         report(cx, s, kind, hist, classify(e, &r.outs[*k], &r.model_before), format!("{} answered {}; the statement admits {:?}\n  request {}", e.name, r.outs[*k].code(), al, request_json(&e.query, &e.payload)));
+        // the reference map cannot follow an outcome the statement does not admit: the consequences
+        // for later lookups are the same defect, not further ones — report once, do not extend
+        cx.eval();
+        return Some(Step { key: agv_engine::h64(&(kind, hist, "violating")), expand: false });
     }
     let pv = probe_vector(s, kind, hist, &c.traces);
     let contents = fifo_contents(s, &r.world);
